@@ -345,14 +345,16 @@ class RadiDict:
         elif mismatch:
             return
 
-        if hooks_only and node[DATA] is not None:
+        if hooks_only:
             node[HOOKS] = None
-            return
+            if node[DATA] is not None:
+                return
 
         stack.reverse()
         assert node is stack[0]
-        node[DATA] = None
-        node[PARAMS] = []
+        if not hooks_only:
+            node[DATA] = None
+            node[PARAMS] = []
         key0_to_del = None
         for node in stack:
             if key0_to_del:
@@ -364,7 +366,8 @@ class RadiDict:
                 node[IDX] = node[IDX].replace(key0_to_del, '')
                 del node[OFFSET + kidx]
                 self._try_merge(node)
-            if not (node[DATA] or node[IDX]):
+            # a node is garbage only if it holds neither data, nor hooks, nor children
+            if not (node[DATA] or node[IDX] or node[HOOKS]):
                 key0_to_del = node[KEY][0]
             else:
                 break
